@@ -112,3 +112,50 @@ Example cmap6_example :
   cmap6_compile 0 [(65, 3); (67, 5)] = Ok [0; 6; 0; 16; 0; 0; 0; 65; 0; 3; 0; 3; 0; 0; 0; 5]
   /\ cmap6_decompile [0; 6; 0; 16; 0; 0; 0; 65; 0; 3; 0; 3; 0; 0; 0; 5] = Ok (0, [(65, 3); (67, 5)]).
 Proof. split; vm_compute; reflexivity. Qed.
+
+(* ---- what the decoder returns is always a mapping the round trip applies to: decompile . compile . decompile = decompile
+   (C01's second-generation stability for this subtable, for ANY bytes the decoder accepts) *)
+Lemma zip_from_sorted : forall gs c, sorted_from c (zip_from c gs).
+Proof.
+  induction gs as [|g r IH]; intros c; cbn [zip_from]; [exact I|].
+  destruct (g =? 0); [eapply sorted_from_weaken; [|apply IH]; lia|]. cbn [sorted_from]. split; [lia|apply IH].
+Qed.
+Lemma zip_from_gids : forall gs c, gids_ok (zip_from c gs).
+Proof.
+  induction gs as [|g r IH]; intros c; cbn [zip_from]; [constructor|].
+  destruct (Z.eqb_spec g 0); [apply IH|]. constructor; [exact n|apply IH].
+Qed.
+Lemma take_be_S k b r : take_be (S k) (b :: r) =
+  match take_be k r with Some (x, r') => Some (b * 2 ^ (8 * Z.of_nat k) + x, r') | None => None end.
+Proof. reflexivity. Qed.
+Lemma take_be_nonneg : forall n bs v r, take_be n bs = Some (v, r) -> Forall is_byte bs -> 0 <= v /\ Forall is_byte r.
+Proof.
+  induction n as [|n IH]; intros bs v r H HB.
+  - change (take_be 0 bs) with (Some (0, bs)) in H. injection H as <- <-. split; [lia|exact HB].
+  - destruct bs as [|b bs']; [discriminate H|]. rewrite take_be_S in H. inversion HB as [|? ? Hb HB']; subst.
+    destruct (take_be n bs') as [[v' r']|] eqn:E; [|discriminate H]. injection H as <- <-.
+    destruct (IH _ _ _ E HB') as [Hv Hr]. split; [|exact Hr].
+    unfold is_byte in Hb. assert (0 <= 2 ^ (8 * Z.of_nat n)) by (apply Z.pow_nonneg; lia). nia.
+Qed.
+
+Theorem cmap6_recompile_stable data language m :
+  Forall is_byte data -> cmap6_decompile data = Ok (language, m) ->
+  match cmap6_compile language m with
+  | Ok bytes => cmap6_decompile bytes = Ok (language, m)
+  | Err _ => True
+  end.
+Proof.
+  intros HB H. unfold cmap6_decompile in H.
+  destruct (take_be 2 data) as [[v0 d1]|] eqn:E0; [|discriminate].
+  destruct (take_be 2 d1) as [[len d2]|] eqn:E1; [|discriminate].
+  destruct (take_be 2 d2) as [[lang d3]|] eqn:E2; [|discriminate].
+  destruct (negb (Z.of_nat (length data) =? len)); [discriminate|].
+  destruct (take_be 2 d3) as [[first d4]|] eqn:E3; [|discriminate].
+  destruct (take_be 2 d4) as [[cnt d5]|] eqn:E4; [|discriminate].
+  destruct (Nat.odd (length (firstn (2 * Z.to_nat cnt) d5))); [discriminate|].
+  inversion H; subst language m. clear H.
+  destruct (take_be_nonneg _ _ _ _ E0 HB) as [_ B1]. destruct (take_be_nonneg _ _ _ _ E1 B1) as [_ B2].
+  destruct (take_be_nonneg _ _ _ _ E2 B2) as [_ B3]. destruct (take_be_nonneg _ _ _ _ E3 B3) as [Hf _].
+  apply cmap6_roundtrip; [|apply zip_from_gids].
+  eapply sorted_from_weaken; [|apply zip_from_sorted]. exact Hf.
+Qed.
